@@ -17,17 +17,33 @@ Inductive sstep :=
 | KBurst (n : Z)   (* n Adds, each from its own goroutine *)
 | KAdv (d : Z)     (* the clock advances *)
 | KRace (d : Z)    (* one Add and an advance of the clock, in no known order *)
-| KDrain.          (* slow consumer: take every waiting signal *)
+| KDrain           (* slow consumer: take every waiting signal *)
+| KAddH (d : Z) (fired : bool)
+                   (* one Add; the clock jumps by d INSIDE the first call the run loop makes on the
+                      clock while handling its token (NewTimer, or Stop of the window's timer);
+                      fired = such a call was made *)
+| KAdvH (d d2 : Z) (fired : bool).
+                   (* the clock advances by d; if the window's timer expires, the clock jumps by d2
+                      inside the Stop call of handleTimerFired's reset *)
 
 Inductive fin :=
 | FClose             (* Close *)
-| FCancel (n : Z).   (* cancel the context, n more Adds, Close *)
+| FCancel (n : Z)    (* cancel the context, n more Adds, Close *)
+| FClose2.           (* Close, and when it has returned a second Close *)
 
 Inductive case :=
 | CScript (c : cfg) (slow : bool) (steps : list (sstep * (list act * Z))) (f : fin)
           (obs_run_returned obs_close_returned obs_goroutines_left : bool)
 | CStress (runs worst_signals_minus_adds : Z)
-          (obs_run_returned obs_close_returned obs_goroutines_left : bool).
+          (obs_run_returned obs_close_returned obs_goroutines_left : bool)
+| CPark (c : cfg) (cancel : bool) (ncloses extra_adds : Z)
+        (* one Add; the run loop is held inside handleInputCh (in NewTimer of the injected clock);
+           meanwhile: [extra_adds] more Add calls, optionally the context is cancelled, and
+           [ncloses] (1 or 2) Close calls are started; observed: how many Close calls returned
+           while the run loop was held; after letting it go: all Close calls / Run returned,
+           goroutines left *)
+        (obs_closes_returned_while_held : Z)
+        (obs_all_closes_returned obs_run_returned obs_goroutines_left : bool).
 
 (* ------------------------------------------------------------------------------------- *)
 (* the model's side                                                                         *)
@@ -85,6 +101,32 @@ Definition outcomes (v : variant) (c : cfg) (s : state) (k : sstep) : list state
   | KAdv d => explore 8 v c s 0 (Some d)
   | KRace d => explore 12 v c s 1 (Some d)
   | KDrain => [s]
+  | KAddH d fired =>
+      match exec v c s [Model.Add; TakeToken] with
+      | Some s1 =>
+          (* handleInputCh calls the clock unless it takes the cap branch *)
+          let calls := negb (has_timer s1) || negb (cap_reached c (pending s1)) in
+          if Bool.eqb calls fired then
+            match exec v c s1 ((if fired then [Advance d] else []) ++ [HandleToken; LoopTop]) with
+            | Some s2 => explore 8 v c s2 0 None
+            | None => []
+            end
+          else []
+      | None => []
+      end
+  | KAdvH d d2 fired =>
+      match step v c s (Advance d) with
+      | Some s1 =>
+          if Bool.eqb (timer_due s1) fired then
+            if fired then
+              match exec v c s1 [TakeTimer; TimerFire; LoopTop; Advance d2] with
+              | Some s2 => [s2]
+              | None => []
+              end
+            else [s1]
+          else []
+      | None => []
+      end
   end.
 
 (* what the step showed: the entries added to [olog] (oldest first) *)
@@ -156,11 +198,50 @@ Definition end_schedule (s : state) (f : fin) : list event :=
       [CtxCancel; RunExit] ++ repeat SignalAbort (Z.to_nat (inflight s)) ++
       repeat Model.Add (Z.to_nat n) ++ [CloseCall] ++ repeat TokenAbort (Z.to_nat n) ++
       [CloseLock; CloseReturn]
+  | FClose2 =>
+      [CloseCall; RunExit] ++ repeat SignalAbort (Z.to_nat (inflight s)) ++
+      [CloseLock; CloseReturn; Close2Call; Close2Lock; Close2Return]
   end.
 
 Definition model_ends (v : variant) (c : cfg) (s : state) (f : fin) : bool :=
   match exec v c s (end_schedule s f) with
-  | Some s' => cpc_eqb (clo s') C_returned && (wg s' =? 0)
+  | Some s' =>
+      cpc_eqb (clo s') C_returned && (wg s' =? 0) &&
+      match f with FClose2 => cpc_eqb (clo2 s') C_returned | _ => cpc_eqb (clo2 s') C_idle end
+  | None => false
+  end.
+
+(* the run loop held inside handleInputCh while Close calls are started *)
+Definition enabled (v : variant) (c : cfg) (s : state) (e : event) : bool :=
+  match step v c s e with Some _ => true | None => false end.
+
+(* run the events that are enabled, skip the others *)
+Fixpoint exec_try (v : variant) (c : cfg) (s : state) (es : list event) : state :=
+  match es with
+  | [] => s
+  | e :: es' => match step v c s e with Some s' => exec_try v c s' es' | None => exec_try v c s es' end
+  end.
+
+Definition park_model (v : variant) (c : cfg) (cancel : bool) (ncloses extra : Z) : bool :=
+  let two := 2 <=? ncloses in
+  match exec v c (init c) ([LoopTop; Model.Add; TakeToken] ++ repeat Model.Add (Z.to_nat extra) ++
+                           (if cancel then [CtxCancel] else []) ++
+                           [CloseCall] ++ (if two then [Close2Call] else [])) with
+  | Some s0 =>
+      (* whatever the Close calls and the token goroutines do meanwhile ... *)
+      let s1 := exec_try v c s0 ([CloseLock; Close2Lock] ++ repeat TokenAbort (Z.to_nat extra)) in
+      (* ... no Close call can return: the run loop is alive *)
+      negb (enabled v c s1 CloseReturn) && negb (enabled v c s1 Close2Return) &&
+      (* let go: the run loop finishes its iteration and leaves; everything winds down *)
+      match exec v c s1 [HandleToken; LoopTop; RunExit] with
+      | Some s2 =>
+          let s3 := exec_try v c s2 (repeat SignalAbort (Z.to_nat (inflight s2)) ++
+                                     repeat TokenAbort (Z.to_nat (tokens s2)) ++
+                                     [CloseLock; Close2Lock; CloseReturn; Close2Return]) in
+          cpc_eqb (clo s3) C_returned && (wg s3 =? 0) &&
+          (if two then cpc_eqb (clo2 s3) C_returned else cpc_eqb (clo2 s3) C_idle)
+      | None => false
+      end
   | None => false
   end.
 
@@ -175,6 +256,9 @@ Definition model_agrees (v : variant) (k : case) : bool :=
       existsb (fun s => model_ends v c s f) (sim v c slow (start v c) steps) &&
       rr && cr && negb leak
   | CStress runs _ _ _ _ => 0 <? runs
+  | CPark c cancel n extra held allc rr leak =>
+      cfg_okb c && (1 <=? n) && (n <=? 2) && (0 <=? extra) &&
+      park_model v c cancel n extra && (held =? 0) && allc && rr && negb leak
   end.
 
 (* ------------------------------------------------------------------------------------- *)
@@ -213,6 +297,7 @@ Definition adds_of (k : sstep) : Z :=
   match k with
   | KAdd | KRace _ => 1
   | KBurst n => n
+  | KAddH _ _ => 1
   | _ => 0
   end.
 
@@ -228,6 +313,7 @@ Fixpoint flushed_from (c : cfg) (since : Z) (drained : bool) (steps : list sstep
       match k with
       | KAdv d => flushed_from c (since + d) drained rest
       | KDrain => flushed_from c since (drained || (maxd c <=? since)) rest
+      | KAdvH d d2 fired => flushed_from c (since + d + (if fired then d2 else 0)) drained rest
       | _ => flushed_from c 0 false rest
       end
   end.
@@ -248,6 +334,7 @@ Definition oracle (k : case) : bool :=
        else true) &&
       any_oracle (flushedb c slow ks) (timeline steps) rr cr leak
   | CStress _ worst rr cr leak => (worst <=? 0) && end_oracle rr cr leak
+  | CPark _ _ _ _ held allc rr leak => park_oracle held allc rr leak
   end.
 
 (* 0 = some schedule of the model explains the observation and the oracle holds; 1 = no
